@@ -313,6 +313,28 @@ def shape_defs(h, shape, tier):
     d = dict(h.defines); d.update({k: v for k, v in shape.items() if not k.startswith('_')}); d['TIER_' + tier.upper()] = 1
     return d
 
+STD_EXC_RX = re.compile(r'^void (F__ZNSt\d+(?:out_of_range|range_error|runtime_error|logic_error|length_error|domain_error|invalid_argument|overflow_error|underflow_error|bad_cast|bad_alloc|exception)(?:C[12]E\w*|D[012]Ev))\(([^)]*)\);$', re.M)
+
+def auto_std_exception_bodies(h, gen, workdir):
+    """constructors/destructors of the standard exception classes live in libstdc++.so, not in the IR.  What an exception object CONTAINS (its message) is
+    not modelled anywhere - the type thrown is what __cxa_throw is given - so a call the code under test makes to one of them gets an empty body unless the
+    harness (or the runtime model) defines it itself.  Without this a changed tree that starts throwing e.g. std::out_of_range(const char*) would end as
+    "no body for callee" (inconclusive) instead of being judged."""
+    texts = [fread(os.path.join(VERIF, 'rt', 'verif_rt.c')), fread(os.path.join(VERIF, 'harness', h.src))]
+    if h.string_model: texts.append(fread(os.path.join(VERIF, 'rt', 'string_model.c')))
+    for f in os.listdir(workdir):
+        if f.endswith('.h'): texts.append(fread(os.path.join(workdir, f)))
+    for inc in re.findall(r'#include "([^"]+)"', texts[1]):
+        q = os.path.join(VERIF, 'harness', inc)
+        if os.path.exists(q): texts.append(fread(q))
+    alltxt = '\n'.join(texts); out = []
+    for m in STD_EXC_RX.finditer(fread(gen)):
+        name, params = m.group(1), m.group(2)
+        if re.search(r'\b' + re.escape(name) + r'\s*\(', alltxt): continue
+        ps = ', '.join('%s p%d' % (t.strip(), i) for i, t in enumerate(params.split(','))) if params.strip() and params.strip() != 'void' else 'void'
+        out.append('void %s(%s) { } /* auto: standard exception member, content not modelled */' % (name, ps))
+    return '\n'.join(out) + ('\n' if out else '')
+
 def prepare(h, workdir):
     """translate + assemble the single TU; returns (cfile, info)"""
     gen, info = translate(h.fam, h.roots, h.stubs, h.keep_virtual, tag=re.sub(r'\W', '_', h.name), cuts=getattr(h, 'cuts', ()), need_globals=getattr(h, 'need_globals', ()))
@@ -323,6 +345,7 @@ def prepare(h, workdir):
         o.write('/* generated: %s */\n#include "%s"\n#include "%s"\n' % (h.name, gen, os.path.join(VERIF, 'rt', 'verif_rt.c')))
         if h.string_model: o.write('#include "%s"\n' % os.path.join(VERIF, 'rt', 'string_model.c'))
         o.write('#include "%s"\n' % os.path.join(VERIF, 'harness', h.src))
+        o.write(auto_std_exception_bodies(h, gen, workdir))
     return cfile, info, gen
 
 def run_shape(h, cfile, shape, tier):
